@@ -66,7 +66,6 @@ def _classify(ctx, divs, labels, pre):
 
 def case_loclist_route(ctx, inp):
     U.dd()
-    from dask.dataframe.dask_expr._expr import Partitions
     from dask.dataframe.dask_expr._indexing import LocList
     from dask.dataframe.indexing import _partitions_of_index_values
     divs, labels = inp["divs"], inp["labels"]
@@ -92,6 +91,17 @@ def case_loclist_route(ctx, inp):
     # (2) LocList on a frame with these divisions: reported divisions, lowering
     frame = U.frame_from_parts([[] for _ in range(n)], divisions=divs)
     e = LocList(frame.expr, list(labels), None)
+    try:
+        _route_expr(ctx, inp, e, frame, model, r_items)
+    except (IndexError, KeyError, ValueError) as ex:
+        ctx.fail("LocList._divisions / _lower / _layer raised: " + U.exc_name(ex), observed=[divs, labels, U.exc_name(ex)])
+
+
+def _route_expr(ctx, inp, e, frame, model, r_items):
+    from dask.dataframe.dask_expr._expr import Partitions
+    divs, labels = inp["divs"], inp["labels"]
+    n = len(divs) - 1
+    m_items, _m_loop, m_divs, m_low = model
     rd = list(e._divisions())
     if rd[0] is None:
         ctx.eq("LocList._divisions (no label: unknown)", m_divs, [Sym("unknown")])
